@@ -42,6 +42,12 @@ class RichSwnmRebuilder:
         id_by_switch = {}
         for used_switch in all_used_switches:
             if used_switch.index is not None:
+                # a reference by number alone never erases the name the switch already has
+                if not cls._determine_if_switch_has_no_custom_name(
+                    new_switches[used_switch.index]
+                ) and cls._determine_if_switch_has_no_custom_name(used_switch):
+                    id_by_switch[used_switch] = used_switch.index
+                    continue
                 new_switches[used_switch.index] = used_switch
                 id_by_switch[used_switch] = used_switch.index
             else:
